@@ -1,4 +1,5 @@
 import GlyProofs.Smiles.Frame
+import GlyModel.Smiles.Tree
 namespace Gly.Smi
 
 /-! ### Well-formedness of reachable states: every stored index points at an existing atom -/
@@ -80,8 +81,7 @@ theorem run_WF (s s' : St) (ts : List Tok) (hw : WF s) (h : run s ts = some s') 
 
 /-! ### Simulation of the continuation under the index renaming -/
 
-/-- indices below `N` stay, indices from `N` on move up by `d` -/
-def ren (N d : Nat) (i : Nat) : Nat := if i < N then i else i + d
+-- `ren N d` (indices below `N` stay, indices from `N` on move up by `d`) is defined with the Spec in `GlyModel.Smiles.Tree`
 
 /-- `Y` is `X` seen through the renaming (for the part of the state a continuation can look at). -/
 def Sim (N d : Nat) (X Y : St) : Prop :=
